@@ -356,9 +356,97 @@ func deep(c *simkit.Choices, x *simkit.Ctx) *simkit.Violation {
 	return nil
 }
 
+// grown: an unfolder that has honestly received a very long array must not
+// trust the NEXT document's announced length any more than a new unfolder
+// does: allocation on the strength of an announcement is compared between the
+// used and a new instance.
+func grown(c *simkit.Choices, x *simkit.Ctx) *simkit.Violation {
+	st := x.Stats
+	te := model.TypeByName([]string{"[]int", "[]interface{}", "interface{}", "[]string", "[]int8", "[]float64", "map[string][]int"}[c.N(7)])
+	n := []int{1100, 5000, 70000, 300000}[c.N(4)]
+	str := te.Name == "[]string"
+	elem := func(i int) simkit.Ev {
+		if str {
+			return simkit.Ev{K: simkit.KStr, S: "s"}
+		}
+		return simkit.Ev{K: simkit.KInt64, I: int64(i % 100)}
+	}
+	wrap := te.Name == "map[string][]int"
+	var hist []simkit.Ev
+	if wrap {
+		hist = append(hist, simkit.Ev{K: simkit.KObjStart, I: 1}, simkit.Ev{K: simkit.KKey, S: "k"})
+	}
+	ann := int64(-1)
+	if c.Bool() {
+		ann = int64(n)
+	}
+	hist = append(hist, simkit.Ev{K: simkit.KArrStart, I: ann})
+	for i := 0; i < n; i++ {
+		hist = append(hist, elem(i))
+	}
+	hist = append(hist, simkit.Ev{K: simkit.KArrEnd})
+	if wrap {
+		hist = append(hist, simkit.Ev{K: simkit.KObjEnd})
+	}
+	var probe []simkit.Ev
+	if wrap {
+		probe = append(probe, simkit.Ev{K: simkit.KObjStart, I: 1}, simkit.Ev{K: simkit.KKey, S: "k"})
+	}
+	probe = append(probe, simkit.Ev{K: simkit.KArrStart, I: inflated[c.N(len(inflated))]}, elem(0))
+	reset := c.Bool()
+	sc := &Scenario{Target: te.Name, StreamOf: fmt.Sprintf("history: one honest array of %d elements (announced %d), Reset afterwards %v", n, ann, reset),
+		ProbeType: te.Name, Probe: simkit.EventsString(probe, 8), Events: len(hist)}
+	simkit.SetCurrent(sc)
+	st.Eval(1)
+	st.Fault("inflated-announcement-after-long-honest-array")
+	st.Distinct(simkit.NewDigest().Str("grown" + te.Name).Int(n).Int(int(ann)).Str(sc.Probe).Sum())
+	var used, fresh uint64
+	pi := simkit.Guard(func() {
+		u, err := gotype.NewUnfolder(nil)
+		if err != nil {
+			return
+		}
+		ptr, _, _ := te.NewTarget()
+		if u.SetTarget(ptr) != nil || deliverAll(u, hist, false) != nil {
+			return
+		}
+		x.Alive()
+		if reset {
+			u.Reset()
+		}
+		ptr2, _, _ := te.NewTarget()
+		if u.SetTarget(ptr2) != nil {
+			return
+		}
+		a0 := exactAlloc()
+		deliverAll(u, probe, false)
+		used = exactAlloc() - a0
+		ptr3, _, _ := te.NewTarget()
+		fu, _ := gotype.NewUnfolder(nil)
+		if fu.SetTarget(ptr3) != nil {
+			return
+		}
+		a0 = exactAlloc()
+		deliverAll(fu, probe, false)
+		fresh = exactAlloc() - a0
+	})
+	if pi != nil {
+		return &simkit.Violation{Kind: "panic", Site: "grown" + pi.Site, Detail: pi.Value + "\n" + pi.Stack, Scenario: sc}
+	}
+	if used > 2*fresh+256<<10 {
+		return &simkit.Violation{Kind: "alloc", Site: "after-history/" + te.Name,
+			Detail: fmt.Sprintf("the probe (%d events, announcing a huge array) makes a NEW unfolder allocate %d bytes, but the unfolder that received an array of %d elements before allocates %d bytes", len(probe), fresh, n, used), Scenario: sc}
+	}
+	st.Probe("grown-completed")
+	return nil
+}
+
 func (Engine) Run(c *simkit.Choices, x *simkit.Ctx) *simkit.Violation {
 	if c.N(60) == 0 {
 		return soak(c, x)
+	}
+	if c.N(300) == 0 {
+		return grown(c, x)
 	}
 	if c.N(40) == 0 {
 		return deep(c, x)
